@@ -403,7 +403,9 @@ def _path_points():
 RAND_SPECS = ["SrcU", "SrcT", "SrcS", "C3", "C3T", "MU", "C3", "MM"]
 
 
-def _rand_case(rng, length, bad=False):
+def _rand_case(rng, length, bad=False, wf=False, serial=False):
+    """`serial`: pickle round trips at any point of the history — of the whole graph when the nodes live in a
+    workflow (`wf`), of single top-level nodes otherwise"""
     specs = list(RAND_SPECS)
     nodes, chans, _links = layout(specs)
     ins = [c["id"] for c in chans if c["panel"] == "in"]
@@ -420,25 +422,41 @@ def _rand_case(rng, length, bad=False):
         r = rng.random()
         if r < 0.1:
             return "ND"
+        if serial and r < 0.3:
+            return rng.choice(ADV)
         return rng.choice(POOL)
+
+    def fit(lab):
+        """a value that suits the hint of input `lab` of the consumers most of the time"""
+        if serial and rng.random() < 0.75:
+            return {"x": rng.choice([1, 2, 3, 210, 214, 230]), "y": rng.choice([101, 102, 211]),
+                    "z": rng.choice([5, 6, 200, 225])}[lab]
+        return val()
 
     def kwargs(n):
         labs = [lab for lab, _h in SPECS[nodes[n]["spec"]][0]]
         kw, pos = [], []
         npos = rng.choice([0, 0, 0, 1, 2])
         for lab in labs[:npos]:
-            pos.append(val())
+            pos.append(fit(lab))
         for lab in labs[npos:]:
-            if rng.random() < 0.35:
+            if rng.random() < (0.7 if serial else 0.35):
                 if rng.random() < 0.25:
                     kw.append([lab, f"@{rng.choice(src_outs)}"])
                 else:
-                    kw.append([lab, val()])
+                    kw.append([lab, fit(lab)])
         rng.shuffle(kw)
         return kw, pos
 
     for _ in range(length):
         r = rng.random()
+        if serial and rng.random() < 0.09:
+            backend = rng.choice(["pickle", "pickle", "cloud"])
+            if wf:
+                ops.append(["rt", backend])
+            else:
+                ops.append(["rtnode", rng.choice([0, 1, 2, 3, 4, 5, 7, 8]), backend])
+            continue
         if bad and r < 0.3:
             q = rng.random()
             if q < 0.25:
@@ -457,7 +475,7 @@ def _rand_case(rng, length, bad=False):
             ops.append([rng.choice(["set", "set", "assign"]), c, val()])
         elif r < 0.38:
             a = rng.choice([c for c in cons_ins if c not in no_conn])
-            b = rng.choice(src_outs if rng.random() < 0.85 else [o for o in outs if o not in no_conn])
+            b = rng.choice(src_outs if rng.random() < (0.95 if serial else 0.85) else [o for o in outs if o not in no_conn])
             ops.append([rng.choice(["connect", "connect", "assign"]), a, b if rng.random() < 0.5 else b])
             if ops[-1][0] == "assign":
                 ops[-1][2] = f"@{b}"
@@ -494,13 +512,196 @@ def _rand_case(rng, length, bad=False):
         else:
             c = rng.choice(nodes[donor]["ins"])
             ops.append(["set", c, val()])
+    if serial:
+        # a round trip of the graph fails when a macro's child is wired across the macro's border or a macro input has
+        # lost its receiver (the serialisation property's findings): keep most of these histories inside what pickles
+        top_in = {c for n in nodes if len(n["path"]) == 1 for c in n["ins"]}
+        macro_in = {c for n in nodes if n["kids"] for c in n["ins"]}
+        if rng.random() < 0.85:
+            ops = [o for o in ops
+                   if not (o[0] in ("connect", "assign", "disconnect") and o[1] not in top_in and o[0] != "assign")
+                   and not (o[0] == "assign" and isinstance(o[2], str) and o[2].startswith("@") and o[1] not in top_in)
+                   and not (o[0] == "link" and o[1] in macro_in)]
+        case = {"fam": "randrt", "nodes": specs, "ops": ops}
+        if wf:
+            case["wf"] = True
+        return case
     return {"fam": "bad" if bad else "rand", "nodes": specs, "ops": ops}
+
+
+# the round-trip family: connection product x own value x position of the round trip x backend
+RT_POS = ["first", "mid", "last", "between", "twice", "macro"]
+
+
+def _rt_case(k, perm, states, own, pos, backend, zset, idx):
+    """a consumer inside a workflow; the graph goes through pickle at `pos` of the history; every clause (priority,
+    keeps own value, gate on missing / ill-typed data, refused assignment) is then exercised on the copy"""
+    cons = "CF" if idx % 5 == 4 else "C3"
+    macro = pos == "macro"
+    specs = ["SrcU", "SrcU", "SrcU", cons] + (["MU", "MM"] if macro else [])
+    nodes, _chans, _links = layout(specs)
+    cn = 3
+    x, y, z = nodes[cn]["ins"]
+    outs = [nodes[j]["outs"][0] for j in range(3)]
+    good = {"C3": (9, 101, 5), "CF": (204, 206, 5)}[cons]
+    badv = {"C3": 105, "CF": 7}[cons]
+    upv = {"C3": (1, 2, 3), "CF": (204, 212, 240)}[cons]
+    upbad = {"C3": (102, 220, 241), "CF": (3, 221, 232)}[cons]
+    rt = ["rt", backend]
+    setup = [["set", y, good[1]]]
+    if zset:
+        setup.append(["set", z, good[2]])
+    if own == "data":
+        setup.append(["set", x, good[0]])
+    elif own == "bad":
+        setup += [["strict", x, 0], ["set", x, badv]]
+    for j in range(k):
+        if states[j] == "data":
+            setup.append(["set", outs[j], upv[j]])
+        elif states[j] == "bad":
+            setup.append(["set", outs[j], upbad[j]])
+    wire = [["connect", x, outs[j]] for j in perm]
+    ops = []
+    if pos == "first":
+        ops = [rt] + setup + wire + [["run", cn, [], []]]
+    elif pos == "mid":
+        ops = setup + [rt] + wire + [["run", cn, [], []]]
+    elif pos == "last":
+        ops = setup + wire + [rt, ["run", cn, [], []]]
+    elif pos == "between":
+        ops = setup + wire + [["run", cn, [], []], rt, ["run", cn, [], []]]
+        if not zset:
+            ops += [["set", z, good[2]], ["run", cn, [], []]]
+    elif pos == "twice":
+        ops = setup + wire + [rt, ["rt", "cloud" if backend == "pickle" else "pickle"], ["run", cn, [], []]]
+    else:
+        # macro forwarding across the round trip: MU -> c, MM -> m -> c
+        mu, mm = 4, 6
+        mux = nodes[mu]["ins"]
+        mmx = nodes[mm]["ins"]
+        cx = nodes[5]["ins"]
+        ops = setup + wire + [["set", mux[0], 4], ["set", mux[1], 102], ["set", mmx[2], 8], ["set", cx[2], 6], rt,
+                              ["set", mux[0], 104], ["set", mux[0], 5], ["set", mmx[0], 103], ["set", mmx[0], 6],
+                              ["connect", mux[2], outs[0]], ["fetchall", mu], ["run", 5, [], []], ["run", cn, [], []],
+                              rt, ["run", 5, [], []]]
+    if own == "bad" and idx % 2:
+        ops.append(["strict", x, 1])
+        ops.append(["run", cn, [], []])
+    return {"fam": "rt", "wf": True, "nodes": specs, "ops": ops,
+            "dims": {"k": k, "perm": list(perm), "states": list(states), "own": own, "pos": pos, "backend": backend,
+                     "zset": zset}}
+
+
+def _rt_points():
+    pts = []
+    for k in range(4):
+        for perm in itertools.permutations(range(k)):
+            for states in itertools.product(("data", "nd", "bad"), repeat=k):
+                for own in ("nd", "data", "bad"):
+                    for pos in RT_POS:
+                        for backend in ("pickle", "cloud"):
+                            for zset in (True, False):
+                                pts.append((k, perm, states, own, pos, backend, zset))
+    return pts
+
+
+# the adversarial family: every pool value x every input of two consumers x delivery path x strictness
+ADV_PATHS = ["set", "assign", "setinputs", "setpos", "runkw", "runpos", "fetch", "MU", "link", "copyio", "upstrict"]
+
+
+def _adv_case(v, cons, which, path, strict, serial, idx):
+    """the value `v` is delivered to input `which` (0 = x, 1 = y, 2 = z) of the consumer over `path`; the other inputs
+    hold good values; then the consumer runs (store, gate and call are all judged by the reference verdict)"""
+    good = {"C3": (9, 101, 5), "CF": (204, 206, 5)}[cons]
+    if path == "MU":
+        specs = ["SrcU", "MU"]
+        nodes, _c, _l = layout(specs)
+        cn, sender = 2, 1
+    elif path in ("link", "copyio"):
+        specs = ["SrcU", "C3", cons]
+        nodes, _c, _l = layout(specs)
+        cn, sender = 2, 1
+    else:
+        specs = ["SrcU", cons]
+        nodes, _c, _l = layout(specs)
+        cn, sender = 1, None
+    ins = nodes[cn]["ins"]
+    tgt = ins[which]
+    lab = "xyz"[which]
+    up = nodes[0]["outs"][0]
+    ops = []
+    if not strict:
+        ops.append(["strict", tgt, 0])
+    for j, c in enumerate(ins):
+        if j != which:
+            ops.append(["set", c, good[j]])
+    kw, pos = [], []
+    if path == "set":
+        ops.append(["set", tgt, v])
+    elif path == "assign":
+        ops.append(["assign", tgt, v])
+    elif path == "setinputs":
+        ops.append(["setinputs", cn, [[lab, v]], []])
+    elif path == "setpos":
+        ops.append(["setinputs", cn, [], [good[j] for j in range(which)] + [v]])
+    elif path == "runkw":
+        kw.append([lab, v])
+    elif path == "runpos":
+        pos = [good[j] for j in range(which)] + [v]
+    elif path in ("fetch", "upstrict"):
+        if path == "upstrict":
+            # the same value arrives first as a refused direct assignment, then over the connection
+            ops.append(["set", tgt, v])
+        ops.append(["set", up, v])
+        ops.append(["connect", tgt, up])
+    elif path == "MU":
+        ops.append(["set", nodes[sender]["ins"][which], v])
+    elif path == "link":
+        sx = nodes[sender]["ins"][2]
+        ops.append(["link", sx, tgt])
+        ops.append(["set", sx, v])
+    elif path == "copyio":
+        ops.append(["strict", nodes[sender]["ins"][which], 0])
+        ops.append(["set", nodes[sender]["ins"][which], v])
+        ops.append(["copyio", cn, sender, idx % 2 == 0])
+    if serial == "rt":
+        ops.append(["rt", "cloud" if idx % 3 == 0 else "pickle"])
+    elif serial == "rtnode":
+        ops.append(["rtnode", cn if path != "MU" else sender, "cloud" if idx % 3 == 0 else "pickle"])
+    ops.append(["run", cn, kw, pos])
+    if idx % 4 == 0:
+        ops.append(["strict", tgt, 1 - int(strict)])
+        ops.append(["run", cn, [], []])
+    case = {"fam": "adv", "nodes": specs, "ops": ops,
+            "dims": {"adv": v, "cons": cons, "which": which, "path": path, "strict": strict, "serial": serial}}
+    if serial == "rt":
+        case["wf"] = True
+    return case
+
+
+def _adv_points():
+    pts = []
+    for v in ADV:
+        for cons in ("C3", "CF"):
+            for which in (0, 1, 2):
+                for path in ADV_PATHS:
+                    if path == "MU" and cons != "C3":
+                        continue
+                    for strict in (True, False):
+                        for serial in (None, "rt", "rtnode"):
+                            pts.append((v, cons, which, path, strict, serial))
+    return pts
 
 
 def gen_cases(rng, tier):
     prod = _prod_points()
     path = _path_points()
+    rtp = _rt_points()
+    advp = _adv_points()
     if tier == "quick":
+        ridx = sorted(rng.sample(range(len(rtp)), 330))
+        aidx = sorted(rng.sample(range(len(advp)), 420))
+        n_rrt = 150
         small = [i for i, pt in enumerate(prod) if pt[0] <= 2]
         big = [i for i, pt in enumerate(prod) if pt[0] > 2]
         pidx = small + sorted(rng.sample(big, 900))
@@ -510,6 +711,9 @@ def gen_cases(rng, tier):
         pidx = range(len(prod))
         qidx = range(len(path))
         n_rand, n_bad = 3000, 400
+        ridx = sorted(rng.sample(range(len(rtp)), 4000))
+        aidx = range(len(advp))
+        n_rrt = 1500
     off = rng.randrange(10_000)
     for i in pidx:
         yield _prod_case(*prod[i], idx=i + off)
@@ -519,6 +723,12 @@ def gen_cases(rng, tier):
         yield _rand_case(rng, rng.randint(6, 28 if tier == "quick" else 45))
     for _ in range(n_bad):
         yield _rand_case(rng, rng.randint(4, 16), bad=True)
+    for i in ridx:
+        yield _rt_case(*rtp[i], idx=i + off)
+    for i in aidx:
+        yield _adv_case(*advp[i], idx=i + off)
+    for j in range(n_rrt):
+        yield _rand_case(rng, rng.randint(6, 28 if tier == "quick" else 40), wf=j % 3 != 2, serial=True)
 
 
 def corpus():
@@ -850,9 +1060,24 @@ def _kwlines(nodes, n, kw, pos):
     return " ".join(f"{c}={_marg(a)}" for c, a in items)
 
 
+def _csv(xs):
+    return ",".join(map(str, xs))
+
+
+def _rtline(nodes, chans, roots, with_wf):
+    groups = []
+    for c in comps_of(nodes, chans, roots, with_wf):
+        groups.append(f"| I={_csv(c['I'])} RO={_csv(f'{a}:{b}' for a, b in c['RO'])} MI={_csv(c['MI'])} "
+                      f"RI={_csv(f'{a}:{b}' for a, b in c['RI'])} CO={_csv(c['CO'])} "
+                      f"RM={_csv(f'{a}:{b}' for a, b in c['RM'])}")
+    return f"rt {' '.join(map(str, scope_of(nodes, roots)))} {' '.join(groups)}".rstrip()
+
+
 def model_input(case, impl=None):
     nodes, chans, links = layout(case["nodes"])
     lines = []
+    rev, push = (impl or {}).get("variant") or (0, 1)
+    lines.append(f"cfg {rev} {push}")
     for c in chans:
         lines.append(f"chan {c['id']} {'di' if c['panel'] == 'in' else 'do'} {c['node']} "
                      f"{0 if c['hint'] is None else 1} 1")
@@ -861,7 +1086,7 @@ def model_input(case, impl=None):
         lines.append(f"outs {n['id']} " + " ".join(map(str, n["outs"])))
     for c in chans:
         if c["hint"] is not None:
-            for k in POOL:
+            for k in POOL + list(ADV):
                 if not admit(c["hint"], k):
                     lines.append(f"reject {c['id']} {k}")
     for a in chans:
@@ -901,6 +1126,10 @@ def model_input(case, impl=None):
             lines.append(f"strict {op[1]} {op[2]}")
         elif k == "flag":
             lines.append(f"flag {op[1]} {op[2]} {op[3]}")
+        elif k == "rt" and case.get("wf") and op[1] in ("pickle", "cloud"):
+            lines.append(_rtline(nodes, chans, tops_of(nodes), True))
+        elif k == "rtnode" and not case.get("wf") and op[1] in tops_of(nodes) and op[2] in ("pickle", "cloud"):
+            lines.append(_rtline(nodes, chans, [op[1]], False))
         else:
             lines.append("unknown " + " ".join(map(str, op)))
     return lines
@@ -983,6 +1212,122 @@ def _f(clause, k, op, detail, **extra):
     return {"clause": clause, "detail": f"after op #{k} {op}: {detail}", "signature": sig}
 
 
+def _judge(nodes, chans, out_ch, k, pre, post, stamps):
+    """the clauses of the statement for one operation, given the oracle's time stamps of the present connections"""
+    fails = []
+    op, res = post["op"], post["res"]
+    pv = [_val(x) for x in pre["vals"]]
+    qv = [_val(x) for x in post["vals"]]
+    ctx = (chans, pre["strict"], pre["recv"], [f[0] for f in pre["flags"]])
+    kind = op[0]
+    if kind == "fetch":
+        i = op[1]
+        if chans[i]["panel"] == "in":
+            w = _winner(stamps, pv, i, pre["conns"][i])
+            ev = list(pv)
+            err = _spec_set(ctx, ev, i, pv[w]) if w is not None else None
+            if err is None and res == "ok" and qv != ev:
+                fails.append(_f("fetch-priority", k, op, f"values {qv} expected {ev}"))
+            if (err is None) != (res == "ok"):
+                fails.append(_f("fetch-priority", k, op, f"outcome {res} expected {err or 'ok'}"))
+    if kind == "fetchall":
+        # every input of the panel, each taking its most recent upstream holding data
+        ev = list(pv)
+        err = None
+        for i in nodes[op[1]]["ins"]:
+            w = _winner(stamps, ev, i, pre["conns"][i])
+            if w is not None:
+                err = _spec_set(ctx, ev, i, ev[w])
+                if err:
+                    break
+        if err is None and res == "ok" and qv != ev:
+            fails.append(_f("fetch-priority", k, op, f"values {qv} expected {ev}"))
+        if (err is None) != (res == "ok"):
+            fails.append(_f("fetch-priority", k, op, f"outcome {res} expected {err or 'ok'}"))
+    if kind == "setinputs":
+        # keyword / positional delivery without a run: typed stores through the same setter
+        ev = list(pv)
+        err, _st2 = _deliver(chans, ctx, pre, stamps, k, _items(nodes, op), ev, {})
+        if err is None and res == "ok" and qv != ev:
+            fails.append(_f("assignment-effect", k, op, f"values {qv} expected {ev}"))
+        if (err is None) != (res == "ok"):
+            fails.append(_f("assignment-effect", k, op, f"outcome {res} expected {err or 'ok'}"))
+    if kind == "run":
+        n = op[1]
+        node = nodes[n]
+        ev = list(pv)
+        partners = {i: list(pre["conns"][i]) for i in node["ins"]}
+        err, st2 = _deliver(chans, ctx, pre, stamps, k, _items(nodes, op), ev, partners)
+        if err is None:
+            for i in node["ins"]:
+                w = _winner(st2, ev, i, partners[i])
+                if w is not None:
+                    err = _spec_set(ctx, ev, i, ev[w])
+                    if err:
+                        break
+        gate = None
+        if err is None:
+            running, failed = pre["flags"][n]
+            ready = all(ev[i] != "ND" and (not pre["strict"][i] or admit(chans[i]["hint"], ev[i]))
+                        for i in node["ins"])
+            if running or failed or not ready:
+                gate = "Readiness"
+        new_calls = post["calls"][len(pre["calls"]):]
+        if err is None and gate is None:
+            want = [str(ev[i]) for i in node["ins"]]
+            if not res.startswith("invoked"):
+                fails.append(_f("gate-shut", k, op, f"every input ready, yet the run ended with {res}"))
+            elif [(c[0], list(c[1])) for c in new_calls] != [(n, want)]:
+                fails.append(_f("fetch-priority", k, op,
+                                f"function received {new_calls}, the most recent upstreams holding data give {want}",
+                                conns=max(len(partners[i]) for i in node["ins"])))
+        else:
+            if res.startswith("invoked") or new_calls:
+                fails.append(_f("gate-open", k, op,
+                                f"function invoked ({new_calls}) although {'the gate' if gate else err} refuses"))
+            elif res == "ok":
+                fails.append(_f("gate-open", k, op, "run returned normally although it had to be refused"))
+            else:
+                if gate and res != "Readiness":
+                    fails.append(_f("refusal-kind", k, op, f"expected a ReadinessError, got {res}"))
+                if [pv[c] for c in out_ch] != [qv[c] for c in out_ch]:
+                    fails.append(_f("refused-not-clean", k, op, "an output changed during a refused run"))
+                if [f[1] for f in pre["flags"]] != [f[1] for f in post["flags"]]:
+                    fails.append(_f("refused-not-clean", k, op, "`failed` changed during a refused run"))
+    if kind in ("set", "assign") and not (isinstance(op[2], str) and op[2].startswith("@")):
+        ev = list(pv)
+        err = _spec_set(ctx, ev, op[1], op[2])
+        if res != "ok" and qv != pv:
+            fails.append(_f("assignment-effect", k, op, f"raised {res} but values changed {pv} -> {qv}"))
+        if res == "ok" and err is None and qv != ev:
+            fails.append(_f("assignment-effect", k, op, f"values {qv} expected {ev}"))
+        if (err is None) != (res == "ok"):
+            fails.append(_f("assignment-effect", k, op, f"outcome {res} expected {err or 'ok'}"))
+    if kind in ("rt", "rtnode") and res == "ok":
+        # a round trip is not an assignment: it invents no value.  Every channel holds what it held, or what a
+        # channel forwarding to it held (re-forging a value link delivers the sender's value); in particular the
+        # marker `no data` comes back as the marker, judged the way the library judges it — by identity
+        senders = {}
+        for a_, r_ in enumerate(pre["recv"]):
+            if r_ is not None and r_ >= 0:
+                senders.setdefault(r_, []).append(a_)
+        for c in range(len(chans)):
+            ok_vals, todo, seen = {pv[c]}, [c], {c}
+            while todo:
+                x = todo.pop()
+                for a_ in senders.get(x, []):
+                    if a_ not in seen:
+                        seen.add(a_)
+                        ok_vals.add(pv[a_])
+                        todo.append(a_)
+            if qv[c] not in ok_vals:
+                fails.append(_f("roundtrip-invents-value", k, op,
+                                f"channel {c} ({chans[c]['label']}) held {pv[c]} and holds {qv[c]} after the round trip",
+                                was="ND" if pv[c] == "ND" else "data", now="ND" if qv[c] == "ND" else str(qv[c])[:3]))
+                break
+    return fails
+
+
 def oracle(case, r):
     if "states" not in r:
         return []
@@ -990,100 +1335,25 @@ def oracle(case, r):
     states = r["states"]
     fails = []
     stamps = {}  # (input, output) -> (op index, position within the op)
+    # the same stamps as a tree whose round trip reverses the priority of restored connections would leave them
+    # (finding KF-C07-1 of the serialisation property); only used to label a failure as explained by that defect
+    alt = {}
     excused = {}  # channel -> value that was present when strict hints were switched on
     out_ch = [c["id"] for c in chans if c["panel"] == "out"]
     for k in range(1, len(states)):
         pre, post = states[k - 1], states[k]
         op, res = post["op"], post["res"]
-        pv = [_val(x) for x in pre["vals"]]
         qv = [_val(x) for x in post["vals"]]
-        ctx = (chans, pre["strict"], pre["recv"], [f[0] for f in pre["flags"]])
         kind = op[0]
 
         # ---- expectations that need the stamps as they were before this op
-        if kind == "fetch":
-            i = op[1]
-            if chans[i]["panel"] == "in":
-                w = _winner(stamps, pv, i, pre["conns"][i])
-                ev = list(pv)
-                err = _spec_set(ctx, ev, i, pv[w]) if w is not None else None
-                if err is None and res == "ok" and qv != ev:
-                    fails.append(_f("fetch-priority", k, op, f"values {qv} expected {ev}"))
-                if (err is None) != (res == "ok"):
-                    fails.append(_f("fetch-priority", k, op, f"outcome {res} expected {err or 'ok'}"))
-        if kind == "fetchall":
-            # every input of the panel, each taking its most recent upstream holding data
-            ev = list(pv)
-            err = None
-            for i in nodes[op[1]]["ins"]:
-                w = _winner(stamps, ev, i, pre["conns"][i])
-                if w is not None:
-                    err = _spec_set(ctx, ev, i, ev[w])
-                    if err:
-                        break
-            if err is None and res == "ok" and qv != ev:
-                fails.append(_f("fetch-priority", k, op, f"values {qv} expected {ev}"))
-            if (err is None) != (res == "ok"):
-                fails.append(_f("fetch-priority", k, op, f"outcome {res} expected {err or 'ok'}"))
-        if kind == "setinputs":
-            # keyword / positional delivery without a run: typed stores through the same setter
-            ev = list(pv)
-            err, _st2 = _deliver(chans, ctx, pre, stamps, k, _items(nodes, op), ev, {})
-            if err is None and res == "ok" and qv != ev:
-                fails.append(_f("assignment-effect", k, op, f"values {qv} expected {ev}"))
-            if (err is None) != (res == "ok"):
-                fails.append(_f("assignment-effect", k, op, f"outcome {res} expected {err or 'ok'}"))
-        if kind == "run":
-            n = op[1]
-            node = nodes[n]
-            ev = list(pv)
-            partners = {i: list(pre["conns"][i]) for i in node["ins"]}
-            err, st2 = _deliver(chans, ctx, pre, stamps, k, _items(nodes, op), ev, partners)
-            if err is None:
-                for i in node["ins"]:
-                    w = _winner(st2, ev, i, partners[i])
-                    if w is not None:
-                        err = _spec_set(ctx, ev, i, ev[w])
-                        if err:
-                            break
-            gate = None
-            if err is None:
-                running, failed = pre["flags"][n]
-                ready = all(ev[i] != "ND" and (not pre["strict"][i] or admit(chans[i]["hint"], ev[i]))
-                            for i in node["ins"])
-                if running or failed or not ready:
-                    gate = "Readiness"
-            new_calls = post["calls"][len(pre["calls"]):]
-            if err is None and gate is None:
-                want = [str(ev[i]) for i in node["ins"]]
-                if not res.startswith("invoked"):
-                    fails.append(_f("gate-shut", k, op, f"every input ready, yet the run ended with {res}"))
-                elif [(c[0], list(c[1])) for c in new_calls] != [(n, want)]:
-                    fails.append(_f("fetch-priority", k, op,
-                                    f"function received {new_calls}, the most recent upstreams holding data give {want}",
-                                    conns=max(len(partners[i]) for i in node["ins"])))
-            else:
-                if res.startswith("invoked") or new_calls:
-                    fails.append(_f("gate-open", k, op,
-                                    f"function invoked ({new_calls}) although {'the gate' if gate else err} refuses"))
-                elif res == "ok":
-                    fails.append(_f("gate-open", k, op, "run returned normally although it had to be refused"))
-                else:
-                    if gate and res != "Readiness":
-                        fails.append(_f("refusal-kind", k, op, f"expected a ReadinessError, got {res}"))
-                    if [pv[c] for c in out_ch] != [qv[c] for c in out_ch]:
-                        fails.append(_f("refused-not-clean", k, op, "an output changed during a refused run"))
-                    if [f[1] for f in pre["flags"]] != [f[1] for f in post["flags"]]:
-                        fails.append(_f("refused-not-clean", k, op, "`failed` changed during a refused run"))
-        if kind in ("set", "assign") and not (isinstance(op[2], str) and op[2].startswith("@")):
-            ev = list(pv)
-            err = _spec_set(ctx, ev, op[1], op[2])
-            if res != "ok" and qv != pv:
-                fails.append(_f("assignment-effect", k, op, f"raised {res} but values changed {pv} -> {qv}"))
-            if res == "ok" and err is None and qv != ev:
-                fails.append(_f("assignment-effect", k, op, f"values {qv} expected {ev}"))
-            if (err is None) != (res == "ok"):
-                fails.append(_f("assignment-effect", k, op, f"outcome {res} expected {err or 'ok'}"))
+        now = _judge(nodes, chans, out_ch, k, pre, post, stamps)
+        explained = False
+        if now and alt != stamps and not _judge(nodes, chans, out_ch, k, pre, post, alt):
+            explained = True
+            for f in now:
+                f["signature"]["explained_by"] = "roundtrip-reverses-priority"
+        fails.extend(now)
 
         # ---- keep the oracle's own time stamps: partners by set difference, never by list position
         order = {}
@@ -1094,9 +1364,16 @@ def oracle(case, r):
         for c in range(len(chans)):
             before, after = set(pre["conns"][c]), set(post["conns"][c])
             for o in after - before:
-                stamps[(c, o)] = (k, order.get((c, o), 0))
+                stamps[(c, o)] = alt[(c, o)] = (k, order.get((c, o), 0))
             for o in before - after:
                 stamps.pop((c, o), None)
+                alt.pop((c, o), None)
+        if kind == "rt" and res == "ok":
+            for c, ch in enumerate(chans):
+                if ch["panel"] == "in":
+                    ps = sorted((o for o in post["conns"][c] if (c, o) in alt), key=lambda o: alt[(c, o)], reverse=True)
+                    for j, o in enumerate(ps):
+                        alt[(c, o)] = (k, j)
 
         # ---- no strictly hinted channel holds a value its hint rejects
         if kind == "strict" and op[2] == 1:
@@ -1106,10 +1383,12 @@ def oracle(case, r):
         for c, ch in enumerate(chans):
             if c in excused and qv[c] != excused[c]:
                 del excused[c]
-            if post["strict"][c] and ch["hint"] is not None and qv[c] != "ND" and not isinstance(qv[c], str) \
+            if post["strict"][c] and ch["hint"] is not None and qv[c] != "ND" \
+                    and not (isinstance(qv[c], str) and qv[c].startswith("?")) \
                     and not admit(ch["hint"], qv[c]) and c not in excused:
                 fails.append(_f("bad-store", k, op, f"strict channel {c} ({ch['label']}: {ch['hint'].__name__}) holds {qv[c]}"))
-        if fails:
+                explained = False
+        if fails and not explained:
             break
     return fails
 
